@@ -1325,11 +1325,13 @@ fn mark_ready(ids: &[i64]) -> Vec<Waker> {
 /// One step of the root future under catch_unwind. Returns Some(done) or None on panic.
 fn poll_root<F: Future<Output = Value> + ?Sized>(
     fut: &mut Pin<Box<F>>,
-    flag: &Arc<Flag>,
+    flag: &mut Arc<Flag>,
     spurious: bool,
 ) -> Option<bool> {
     log(json!({"ev":"poll","spurious":spurious}));
-    flag.0.store(false, Ordering::SeqCst);
+    // every poll hands over a NEW waker; only a wake-up of the latest one counts (a future must wake the waker of its most
+    // recent poll, C09: every wake-up of a branch reaches the macro's future wherever that is polled from)
+    *flag = Arc::new(Flag(AtomicBool::new(false)));
     let waker = Waker::from(flag.clone());
     let mut cx = Context::from_waker(&waker);
     let r = std::panic::catch_unwind(std::panic::AssertUnwindSafe(|| fut.as_mut().poll(&mut cx)));
@@ -1378,7 +1380,7 @@ pub fn drive_async(mk: fn() -> LocalBoxFut, sched: &[Value], auto: bool) {
         }
     };
     log(json!({"ev":"created"}));
-    let flag = Arc::new(Flag(AtomicBool::new(false)));
+    let mut flag = Arc::new(Flag(AtomicBool::new(false)));
     let mut done = false;
     for s in sched {
         if done {
@@ -1387,7 +1389,7 @@ pub fn drive_async(mk: fn() -> LocalBoxFut, sched: &[Value], auto: bool) {
         match s["a"].as_str().unwrap_or("") {
             "poll" => {
                 let woken = flag.0.load(Ordering::SeqCst);
-                match poll_root(&mut fut, &flag, !woken && event_count() > 3) {
+                match poll_root(&mut fut, &mut flag, !woken && event_count() > 3) {
                     Some(d) => done = d,
                     None => {
                         done = true;
@@ -1414,7 +1416,7 @@ pub fn drive_async(mk: fn() -> LocalBoxFut, sched: &[Value], auto: bool) {
         while !done && rounds < 200 {
             rounds += 1;
             if flag.0.load(Ordering::SeqCst) || rounds == 1 {
-                match poll_root(&mut fut, &flag, false) {
+                match poll_root(&mut fut, &mut flag, false) {
                     Some(d) => done = d,
                     None => done = true,
                 }
@@ -1477,7 +1479,7 @@ pub fn drive_tasks(mk: fn() -> BoxFut, sched: &[Value], auto: bool) {
             }
         };
         log(json!({"ev":"created"}));
-        let flag = Arc::new(Flag(AtomicBool::new(false)));
+        let mut flag = Arc::new(Flag(AtomicBool::new(false)));
         let mut done = false;
         for s in &sched {
             if done {
@@ -1486,7 +1488,7 @@ pub fn drive_tasks(mk: fn() -> BoxFut, sched: &[Value], auto: bool) {
             match s["a"].as_str().unwrap_or("") {
                 "poll" => {
                     let woken = flag.0.load(Ordering::SeqCst);
-                    match poll_root(&mut fut, &flag, !woken && event_count() > 3) {
+                    match poll_root(&mut fut, &mut flag, !woken && event_count() > 3) {
                         Some(d) => done = d,
                         None => done = true,
                     }
@@ -1514,7 +1516,7 @@ pub fn drive_tasks(mk: fn() -> BoxFut, sched: &[Value], auto: bool) {
             while !done && rounds < 200 {
                 rounds += 1;
                 if flag.0.load(Ordering::SeqCst) || rounds == 1 {
-                    match poll_root(&mut fut, &flag, false) {
+                    match poll_root(&mut fut, &mut flag, false) {
                         Some(d) => done = d,
                         None => done = true,
                     }
